@@ -71,6 +71,12 @@ impl Change {
     pub fn seq(&self) -> (r: u64) ensures r == self.spec_seq() { unimplemented!() }
     #[verifier::external_body]
     pub fn deps(&self) -> (r: &[ChangeHash]) ensures r@ == self.spec_deps() { unimplemented!() }
+    // other read-only accessors of the real Change a variant of these functions might consult (no contract beyond totality)
+    #[verifier::external_body] pub fn start_op(&self) -> NonZeroU64 { unimplemented!() }
+    #[verifier::external_body] pub fn max_op(&self) -> u64 { unimplemented!() }
+    #[verifier::external_body] pub fn len(&self) -> usize { unimplemented!() }
+    #[verifier::external_body] pub fn is_empty(&self) -> bool { unimplemented!() }
+    #[verifier::external_body] pub fn timestamp(&self) -> i64 { unimplemented!() }
 }
 impl Clone for Change { #[verifier::external_body] fn clone(&self) -> (r: Self) ensures r == *self { unimplemented!() } }
 #[derive(Debug)]
